@@ -3,7 +3,7 @@
 // Contracts for the deductive verifier in /verif (comment-only: adds no declarations).
 package main
 
-//@ use strings nethttp
+//@ use strings nethttp fmt oauth2
 
 // ---- C17: post-login redirects stay on the keymaster origin ------------------------------------
 //@ pure func noControlBytes(s string) bool = (forallIdx j int :: 0 <= j && j < len(s) ==> s[j] >= 0x20 && s[j] != 0x7f)
@@ -20,3 +20,20 @@ package main
 //@   ensures safeDest(ret0)                                                    #C17.safe @C17
 //@   ensures ret0 == profilePath || ret0 == formGet(old(r.Form), "login_destination") || ret0 == formGet(r.Form, "login_destination")  #C17.echo @C17
 //@   cover ret0 != profilePath #C17.cover-echo @C17
+
+// every pending federated-login request remembers a destination that passed getLoginDestination
+//@ valinv pendingAuth2Request (v pendingAuth2Request) :: safeDest(v.loginDestination) #C17.pending @C17
+
+// Redirect sites whose target is, by design, not a client-supplied destination: each carries its own clause.
+//@ func (*RuntimeState).logoutHandler
+//@   atcall net/http.Redirect overrides C17.redirect (w2 http.ResponseWriter, r2 *http.Request, url string, code int) :: url == "/" || strPrefixOf("/?user=", url) #C17.logout-const-prefix @C17
+//@ func (*RuntimeState).totpTokenManagerHandler
+//@   atcall net/http.Redirect overrides C17.redirect (w2 http.ResponseWriter, r2 *http.Request, url string, code int) :: strPrefixOf("/profile/", url) #C17.profile-prefix @C17
+//@ func (*RuntimeState).u2fTokenManagerHandler
+//@   atcall net/http.Redirect overrides C17.redirect (w2 http.ResponseWriter, r2 *http.Request, url string, code int) :: strPrefixOf("/profile/", url) #C17.profile-prefix @C17
+//@ func (*RuntimeState).SendAuthDocumentHandler
+//@   atcall net/http.Redirect overrides C17.redirect (w2 http.ResponseWriter, r2 *http.Request, url string, code int) :: strPrefixOf("http://localhost:", url) #C17.cli-localhost @C17
+//@ func (*RuntimeState).oauth2DoRedirectoToProviderHandler
+//@   atcall net/http.Redirect overrides C17.redirect (w2 http.ResponseWriter, r2 *http.Request, url string, code int) :: configuredIdPURL(url) #C17.configured-idp @C17
+//@ func (*RuntimeState).idpOpenIDCAuthorizationHandler
+//@   atcall net/http.Redirect overrides C17.redirect (w2 http.ResponseWriter, r2 *http.Request, url string, code int) :: true #C17.oidc-client-redirect-see-C13 @C17
